@@ -473,28 +473,55 @@ def w2_scan(F, R, tadt):
             body.add(x)
             st.extend(sg.nodes[x].pred)
         loop_nodes |= body
-    # candidate variables: plain locals assigned both before the loop and inside it, used after it
+    # candidate variables: places (a local, or a field of a local struct) assigned both before the loop and inside it
+    def place_key(pl):
+        names = []
+        ty = sg.entry_fn['locals'][pl['l']]['ty']
+        for pp in pl['p']:
+            if isinstance(pp, dict) and 'f' in pp and 'dc' not in pp:
+                names.append(pp['n'])
+                ty = pp.get('ty', ty)
+            else:
+                return None, None
+        return (pl['l'], tuple(names)), ty
     assigns = {}
+    ktype = {}
     for n in sg.nodes:
-        if n.ctx == 0 and n.kind == 'assign' and not n.d['place']['p']:
-            assigns.setdefault(n.d['place']['l'], []).append(n.id)
-        if n.ctx == 0 and n.kind == 'call' and n.inl is None and not n.d['dest']['p']:
-            assigns.setdefault(n.d['dest']['l'], []).append(n.id)
+        pl = None
+        if n.ctx == 0 and n.kind == 'assign':
+            pl = n.d['place']
+        if n.ctx == 0 and n.kind == 'call' and n.inl is None:
+            pl = n.d['dest']
+        if pl is None:
+            continue
+        k, ty = place_key(pl)
+        if k is None:
+            continue
+        assigns.setdefault(k, []).append(n.id)
+        ktype[k] = ty
+
+    def kname(k):
+        return k[1][-1] if k[1] else sg.entry_fn['locals'][k[0]].get('name')
     cands = {}
-    for l, ns in assigns.items():
+    for k, ns in assigns.items():
         inside = [x for x in ns if x in loop_nodes]
-        outside = [x for x in ns if x not in loop_nodes]
-        name = sg.entry_fn['locals'][l].get('name')
+        outside = [x for k2, ns2 in assigns.items() if k2[0] == k[0] and k[1][:len(k2[1])] == k2[1] for x in ns2 if x not in loop_nodes]
+        name = kname(k)
         if inside and outside and name:
-            cands[l] = (name, inside)
-    opt_locals = {l for l in cands if sg.entry_fn['locals'][l]['ty'].startswith('core::option::Option<')}
+            cands[k] = (name, inside)
+    opt_locals = {k for k in cands if ktype[k].startswith('core::option::Option<')}
     info_adt = None
-    for l in opt_locals:
-        t = sg.entry_fn['locals'][l]['ty']
+    for k in opt_locals:
+        t = ktype[k]
         info_adt = t[len('core::option::Option<'):-1]
+
+    def key_of_ref(tgt):
+        if tgt[0] == 'ref' and tgt[1][1][0] == 'local' and tgt[1][1][1] == 0 and all(pp[0] == 'f' for pp in tgt[1][2]):
+            return (tgt[1][1][2], tuple(pp[1] for pp in tgt[1][2]))
+        return None
     # fold helper for guards
     results = {}
-    for l, (name, inside) in sorted(cands.items()):
+    for l, (name, inside) in sorted(cands.items(), key=lambda kv: str(kv[0])):
         for a in inside:
             R.count('scan_assignments', 1)
             gs = sg.guards_of(a)
@@ -505,18 +532,18 @@ def w2_scan(F, R, tadt):
                 d = S.operand(swid, sg.nodes[swid].d['discr'])
                 d0 = d
                 if d0[0] == 'call' and d0[2].endswith('::is_none'):
-                    tgt = strip_ptr(d0[3][0])
-                    if tgt[0] == 'ref' and tgt[1][1][0] == 'local' and tgt[1][1][2] in opt_locals and (None in vals or any(v != 0 for v in vals)):
-                        fm = tgt[1][1][2]
+                    tk = key_of_ref(strip_ptr(d0[3][0]))
+                    if tk in opt_locals and (None in vals or any(v != 0 for v in vals)):
+                        fm = tk
                 elif derives_from(d, lambda x: x[0] == 'downcast' and x[1][0] == 'call' and x[1][2] == 'core::iter::Iterator::next') and d[0] != 'discr':
                     numeric.append((swid, vals, d))
             inst = '%s:%s' % (ctor['id'], name)
             is_opt = l in opt_locals
             ok_fm = (fm == l) if is_opt else (fm is not None)
             R.check(ok_fm, 'W2', inst + ':first-match', site(sg, a),
-                    'assignment of `%s` in the capability loop is guarded by is_none(%s)' % (name, sg.entry_fn['locals'][fm].get('name') if fm is not None else '?'),
+                    'assignment of `%s` in the capability loop is guarded by is_none(%s)' % (name, kname(fm) if fm is not None else '?'),
                     '`%s` is (re)assigned for every matching capability: the first capability of the type is not preferred (guard %s)' % (
-                        name, 'is_none(`%s`)' % sg.entry_fn['locals'][fm].get('name') if fm is not None else 'missing'))
+                        name, 'is_none(`%s`)' % kname(fm) if fm is not None else 'missing'))
             results[l] = (name, a, fm, numeric)
     # numeric guards folded: vendor id, cap_len, cfg_type, reserved bar
     kinds = {}
